@@ -73,13 +73,16 @@ pub enum Part {
     Opt(Box<G>),
     /// `a.map(items_of).into_iter()`
     Iter(Box<G>),
+    /// a context provider used as an iterable link: `a.ignore_with_ctx(item.repeated()..)` (kind / 3 == 0) or
+    /// `a.then_with_ctx(..)`; kind % 3: unbounded / at_most from ctx / exactly from ctx (as in `CtxIter`)
+    Ctx(u8, Box<G>, Box<G>),
 }
 
 impl Part {
     pub fn children(&self) -> Vec<&G> {
         match self {
             Part::Rep(a, _) | Part::Opt(a) | Part::Iter(a) => vec![a],
-            Part::Sep(a, s, ..) => vec![a, s],
+            Part::Sep(a, s, ..) | Part::Ctx(_, a, s) => vec![a, s],
         }
     }
     pub fn map(&self, f: &mut dyn FnMut(&G) -> G) -> Part {
@@ -87,6 +90,10 @@ impl Part {
             Part::Rep(a, x) => Part::Rep(Box::new(f(a)), *x),
             Part::Opt(a) => Part::Opt(Box::new(f(a))),
             Part::Iter(a) => Part::Iter(Box::new(f(a))),
+            Part::Ctx(k, a, c) => {
+                let a = Box::new(f(a));
+                Part::Ctx(*k, a, Box::new(f(c)))
+            }
             Part::Sep(a, s, x, l, t) => {
                 let a = Box::new(f(a));
                 Part::Sep(a, Box::new(f(s)), *x, *l, *t)
@@ -125,6 +132,9 @@ pub enum G {
     TryMap(Box<G>),
     /// `.try_map_with(|v, e| if pred(v) { Ok(v) } else { Err(custom(e.span(), "TW")) })`
     TryMapWith(Box<G>),
+    /// `a.try_map_with(|v, e| ..)` whose verdict depends on the inspector state it is shown: rejects iff the number of
+    /// tokens the inspector has counted is odd (a closure that also runs in check mode, e.g. inside a look-ahead)
+    StGuard(Box<G>),
     OrNot(Box<G>),
     Not(Box<G>),
     Rewind(Box<G>),
@@ -246,7 +256,7 @@ impl G {
         match self {
             Just(_) | JustSeq(..) | Any | OneOf(_) | NoneOf(_) | Select(_) | End | Empty
             | Custom(..) | EmptyChoice | JustCtx | RecRef(_) | AnyRef | SelectRef(_) | Var => vec![],
-            Map(a) | To(a) | Ignored(a) | Filter(a) | TryMap(a) | TryMapWith(a) | OrNot(a)
+            Map(a) | To(a) | Ignored(a) | Filter(a) | TryMap(a) | TryMapWith(a) | StGuard(a) | OrNot(a)
             | Not(a) | Rewind(a) | Boxed(a) | ToSlice(a) | ToSpan(a) | Validate(a, _)
             | Labelled(a, _) | MapErr(a) | Memo(a) | Padded(a) | WithState(a) | NestedDelims(a)
             | WithCtx(_, a) | MapCtx(a) | RepCtx(a) | RepCtxMax(a) | TryRepCtx(a) | RepCtxPre(a, _, _) | CtxBare(_, a) | Snd(a) | Fst(a) | MapUnit(a)
@@ -299,7 +309,7 @@ impl G {
             !matches!(
                 g,
                 Just(_) | JustSeq(..) | Any | OneOf(_) | NoneOf(_) | Select(_) | End | Empty | Custom(..) | JustCtx | AnyRef | SelectRef(_)
-                    | Map(_) | To(_) | Ignored(_) | Filter(_) | TryMap(_) | TryMapWith(_) | Boxed(_) | ToSlice(_) | ToSpan(_)
+                    | Map(_) | To(_) | Ignored(_) | Filter(_) | TryMap(_) | TryMapWith(_) | StGuard(_) | Boxed(_) | ToSlice(_) | ToSpan(_)
                     | Validate(..) | Labelled(..) | MapErr(_) | Memo(_) | Padded(_) | WithState(_) | Snd(_) | Fst(_) | MapUnit(_) | MapZ(_)
                     | SliceWith(_) | SpanWith(_) | Mid(_) | Then(..) | IgnoreThen(..) | ThenIgnore(..) | PaddedBy(..)
                     | DelimitedBy(..) | Group(..) | WithCtx(..) | ThenWithCtx(..) | IgnoreWithCtx(..) | MapCtx(_)
@@ -359,7 +369,7 @@ pub fn nullable(g: &G) -> bool {
         End | Empty => true,
         Custom(k, ok) => *k % 10 == 0 && *ok,
         EmptyChoice => false,
-        Map(a) | To(a) | Ignored(a) | Filter(a) | TryMap(a) | TryMapWith(a) | Boxed(a)
+        Map(a) | To(a) | Ignored(a) | Filter(a) | TryMap(a) | TryMapWith(a) | StGuard(a) | Boxed(a)
         | ToSlice(a) | ToSpan(a) | Validate(a, _) | Labelled(a, _) | MapErr(a) | Memo(a) | Padded(a)
         | WithState(a) | WithCtx(_, a) | MapCtx(a) | Snd(a) | Fst(a) | MapUnit(a) | MapZ(a)
         | SliceWith(a) | SpanWith(a) | Mid(a) | Ext(a, _) | CustomNest(a) | Rec(a, _) => nullable(a),
@@ -386,7 +396,7 @@ pub fn nullable(g: &G) -> bool {
             ps.iter().all(|p| match p {
                 Part::Rep(a, bd) | Part::Sep(a, _, bd, _, _) => bd.min == 0 || nullable(a),
                 Part::Opt(_) => true,
-                Part::Iter(a) => nullable(a),
+                Part::Iter(a) | Part::Ctx(_, a, _) => nullable(a),
             }) && sink.child().map(nullable).unwrap_or(true)
         }
         SepBy(a, _, bd, _, _, sink) => {
@@ -531,8 +541,15 @@ pub fn count_of(c: Tok) -> usize {
         'a' => 1,
         'b' => 2,
         'c' => 0,
+        // a count far beyond anything that could be stored (a corrupt / hostile length prefix)
+        'e' => usize::MAX / 4,
         _ => 3,
     }
+}
+
+/// the same count as the reference model uses it: more than any enumerated input is long
+pub fn count_u8(c: Tok) -> u8 {
+    count_of(c).min(255) as u8
 }
 
 /// The inspector fold: state after feeding `toks`.
@@ -601,6 +618,7 @@ impl fmt::Display for G {
             Filter(a) => write!(f, "filter({})", a),
             TryMap(a) => write!(f, "try_map({})", a),
             TryMapWith(a) => write!(f, "try_map_with({})", a),
+            StGuard(a) => write!(f, "state_guard({})", a),
             OrNot(a) => write!(f, "or_not({})", a),
             Not(a) => write!(f, "not({})", a),
             Rewind(a) => write!(f, "rewind({})", a),
@@ -713,6 +731,7 @@ impl fmt::Display for G {
                         }
                         Part::Opt(a) => write!(f, "or_not({})", a)?,
                         Part::Iter(a) => write!(f, "into_iter[bare]({})", a)?,
+                        Part::Ctx(k, a, c) => write!(f, "ctx_iter{}[bare]({},{})", k, a, c)?,
                     }
                 }
                 write!(f, ")")
@@ -905,6 +924,7 @@ impl<'a> P<'a> {
             "filter" => Filter(un(self)?),
             "try_map" => TryMap(un(self)?),
             "try_map_with" => TryMapWith(un(self)?),
+            "state_guard" => StGuard(un(self)?),
             "or_not" => OrNot(un(self)?),
             "not" => Not(un(self)?),
             "rewind" => Rewind(un(self)?),
@@ -1027,6 +1047,7 @@ impl<'a> P<'a> {
                         SepBy(a, c, x, l, t, Sink::Bare) => Part::Sep(a, c, x, l, t),
                         OrNot(a) => Part::Opt(a),
                         IntoIter(a, Sink::Bare) => Part::Iter(a),
+                        CtxIter(k, a, c, Sink::Bare) => Part::Ctx(k, a, c),
                         o => return Err(format!("not an iterable link: {o}")),
                     });
                 }
